@@ -650,6 +650,17 @@ func (p *nriPlugin) RemoveContainer(ctx context.Context, pod *api.PodSandbox, co
 	b := metrics.Block()
 	defer b.Done()
 
+	if c, ok := m.cache.LookupContainer(container.Id); ok {
+		if state := c.GetState(); state == cache.ContainerStateCreated || state == cache.ContainerStateRunning {
+			// we never saw this container stop: release its resources now
+			p.unmapContainer(c)
+			if err := m.policy.ReleaseResources(c); err != nil {
+				log.Warnf("%s: failed to release resources of %s: %v", event, c.PrettyName(), err)
+			}
+			m.updateTopologyZones()
+		}
+	}
+
 	m.cache.DeleteContainer(container.Id)
 	return nil
 }
